@@ -171,7 +171,7 @@ def sequences(vocab, n):
 # ---------------------------------------------------------------- grammar-directed valid scripts
 
 STR_VALUES = ['"a"', '"INBOX.x"', '"café"', '"with \\"quote\\""', '"back\\\\slash"', '"a,b"', '"[x]"', '"${v}"', '""',
-              '"line\\\nbreak"' if False else '"two\nlines"', '"x@example.org"', '"日本"']
+              '"line\\\nbreak"' if False else '"two\nlines"', '"x@example.org"', '"日本"', '"cr\r\nlf inside"']
 
 
 ML_VALUES = ["text:\nhello\n.\n", "text:\n..dot\nmore\n.\n", "text:\r\nx\r\n.\r\n", "text:\n$x$\n.\n",
